@@ -439,49 +439,68 @@ func (b *baseScreen) LockRegion(x, y, width, height int, lock bool) {
 
 func (b *baseScreen) ChannelEvents(ch chan<- Event, quit <-chan struct{}) {
 	defer close(ch)
+	defer verifPoint("ce-close")
 	for {
+		verifPoint("ce-select", len(b.EventQ()), cap(b.EventQ()))
 		select {
 		case <-quit:
+			verifPoint("ce-quit")
 			return
 		case <-b.StopQ():
+			verifPoint("ce-stop")
 			return
 		case ev := <-b.EventQ():
+			verifPoint("ce-ev", len(b.EventQ()), cap(b.EventQ()))
+			verifPoint("ce-fwd", len(ch), cap(ch))
 			select {
 			case <-quit:
+				verifPoint("ce-fwd-quit")
 				return
 			case <-b.StopQ():
+				verifPoint("ce-fwd-stop")
 				return
 			case ch <- ev:
+				verifPoint("ce-fwd-sent", len(ch), cap(ch))
 			}
 		}
 	}
 }
 
 func (b *baseScreen) PollEvent() Event {
+	verifPoint("poll", len(b.EventQ()), cap(b.EventQ()))
 	select {
 	case <-b.StopQ():
+		verifPoint("poll-stop")
 		return nil
 	case ev := <-b.EventQ():
+		verifPoint("poll-ev", len(b.EventQ()), cap(b.EventQ()))
 		return ev
 	}
 }
 
 func (b *baseScreen) HasPendingEvent() bool {
+	verifPoint("pending", len(b.EventQ()), cap(b.EventQ()))
 	return len(b.EventQ()) > 0
 }
 
 func (b *baseScreen) PostEventWait(ev Event) {
+	verifPoint("postw", len(b.EventQ()), cap(b.EventQ()))
 	select {
 	case b.EventQ() <- ev:
+		verifPoint("postw-sent", len(b.EventQ()), cap(b.EventQ()))
 	case <-b.StopQ():
+		verifPoint("postw-stop")
 	}
 }
 
 func (b *baseScreen) PostEvent(ev Event) error {
+	verifPoint("post", len(b.EventQ()), cap(b.EventQ()))
 	select {
 	case b.EventQ() <- ev:
+		verifPoint("post-sent", len(b.EventQ()), cap(b.EventQ()))
 		return nil
 	default:
+		verifPoint("post-full", len(b.EventQ()), cap(b.EventQ()))
 		return ErrEventQFull
 	}
 }
